@@ -108,11 +108,10 @@ def run (inp obs : List String) : Verdict :=
             let ref := (r.dropWhile (· ≠ "REF")).drop 1
             match parseGlyphTokens back with
             | some h =>
-              let d := Spec02.diff eqLib g h
-              let rt := dedupS (d.map (fun a => "roundtrip:" ++ Spec02.explain g a))
+              let rt := dedupS ((Spec02.verdict eqLib indent g h).map ("roundtrip:" ++ ·))
               let od := if ref == back then [] else
                 (match parseGlyphTokens ref with
-                 | some h0 => dedupS ((Spec02.diff eqLib h0 h).map (fun a => "options-dependent:" ++ Spec02.explain g a))
+                 | some h0 => dedupS ((Spec02.optionsVerdict eqLib ['\t'] indent g h0 h).map ("options-dependent:" ++ ·))
                  | none => ["options-dependent:unreadable"])
               sortStrs (rt ++ od)
             | none => ["unreadable-observation"]
